@@ -976,6 +976,12 @@ func c07RunCase(env *c07Env, c *c07Case, rng *rand.Rand) (res c07CaseResult) {
 			}
 		}
 		d["actor_tree_parent_links"] = fmt.Sprint(links)
+		if tail := env.logTail(); len(tail) > 0 {
+			if len(tail) > 12 {
+				tail = tail[len(tail)-12:]
+			}
+			d["runtime_warnings_tail"] = tail
+		}
 		if orphan != "" {
 			d["would_be_signature"] = sig
 			sig = "actor-tree:live-child-lost-parent-link:" + orphan
